@@ -5,7 +5,7 @@ LEVEL = "proof"
 RULE = ('all C01 streams for the all-inputs clauses (gapless adjacency only if adjacent in input; no terminal gaps) + PretextView-model scripts incl. unpainted scaffolds with trailing contigs inside the final partial texel, absent scaffolds, cut contigs, for the gap-identity clause. Non-trivial = distinct (kind, #pieces, cuts, breaks, joins, #assemblies | error).')
 TRUSTED = ['correspondence harness props/C07.py + remap_lib.py: real BuildAssembly pipeline vs Lean `remap` on the projection `proj_rows`', 'modelled not verified: Python dict/set/sort semantics as in Model/Py.lean; object identity by object ids; PretextView edit-script model (spec side)']
 ASSUMPTIONS = ['remapping completes (errors are not in scope)']
-LEVEL_NOTE = "first sentence proved end to end over the model: `remap_no_terminal_gaps` (all inputs), `remap_adjacent_only_from_input` (distinct row objects, join gap configured); second sentence: `remap_gap_rows_from_input_or_join` (all maps) and `remap_gap_runs` / `remap_non_neighbours_join_gap` under the decidable `MissingContiguous` (no found contig between two left-over contigs of one input scaffold — what PretextView maps give; that implication is not proved in Lean and is checked by the oracle on every generated map); without it the sentence is false for arbitrary bait lists (`remap_gap_runs_unrestricted_false`), which the statement excludes ('for maps PretextView can produce')"
+LEVEL_NOTE = "both sentences proved end to end over the model for ALL Pretext files: `remap_no_terminal_gaps`, `remap_adjacent_only_from_input` (distinct row objects, join gap configured), `remap_gap_rows_from_input_or_join`, `remap_gap_runs` (every run of gap rows between two output contigs is exactly the join gap or exactly the gap rows the input has between the same two facing contig ends, reversed when read backwards) and `remap_non_neighbours_join_gap`; no side condition on the map since fix 9be92a2 (before it the second sentence was false for maps that placed a contig lying between two left-over contigs); tie = differential correspondence on complete row lists"
 EXPLANATION = 'adjacency/terminal-gap theorems over the model; tie by correspondence on complete row lists; oracle = facing-end adjacency + gap identity.'
 PROJ = R.proj_rows
 
